@@ -55,6 +55,9 @@ class StmtMixin:
             for cur in live:
                 for kind, s2, v in self.exec_stmt(s, cur):
                     if kind == "normal":
+                        g = self.ghost_after_map.get(id(s))
+                        if g is not None:
+                            self.run_ghost(g, s2)
                         nxt.append(s2)
                     else:
                         done.append((kind, s2, v))
@@ -497,7 +500,19 @@ class StmtMixin:
             return r
         return v
 
-    def do_havoc(self, st, body, extra_names=()):
+    def ghost_in(self, body, lc=None):
+        out = []
+        for s in body:
+            for n in ast.walk(s):
+                g = self.ghost_after_map.get(id(n))
+                if g is not None:
+                    out += ast.parse(g).body
+        if lc:
+            out += self.ghost_stmts(lc)
+        return out
+
+    def do_havoc(self, st, body, extra_names=(), lc=None):
+        body = list(body) + self.ghost_in(body, lc)
         names = assigned_names(body)
         muts = self.mutated_roots(body, st)
         for nm in muts:
@@ -530,7 +545,7 @@ class StmtMixin:
         self.run_ghost(lc.get("ghost_init"), st)
         self.check_invs(st, lc, "inv-init", s)
         head = st
-        self.do_havoc(head, s.body, lc.get("ghost_vars", ()))
+        self.do_havoc(head, s.body, lc.get("ghost_vars", ()), lc)
         self.assume_invs(head, lc)
         self.loops_cut.append(key)
         c = truth(self.eval(s.test, head))
@@ -674,7 +689,7 @@ class StmtMixin:
         # --- arbitrary iteration
         head = st
         head.ghost.update(init.ghost)
-        self.do_havoc(head, s.body, lc.get("ghost_vars", ()))
+        self.do_havoc(head, s.body, lc.get("ghost_vars", ()), lc)
         k = fresh("it", INT)
         head.ghost[kname] = Sc("int", k)
         head.assume(z3.And(k >= 0, k <= n))
